@@ -10,6 +10,11 @@
                               object: i<t>:<op> a<t> l<t> s<t> u<t> t<t>  (inv, acq, load, store, rel, ret)
                               → ok <fact of each ret, in order>   |   stuck@<index>
 
+    XL <act>;…  /  XLL <act>;…   the same schedules over the *CodeModels* of C09 (bucket array + order list,
+                              identity hash, capacity 3 so that the table grows) and C13 (pointer heap):
+                              facts printed as by XM / XD, except that removeFirst/removeLast print `*:<v>`
+                              (the code model returns the value only)
+
   dictionary ops  p<k>,<v> g<k> c<k> r<k> rf rl s e x
   deque ops       af<x> al<x> rf rl s x
   queue ops       p<x> f<x> n s x c<cap> g          (put, putForce, getNoWait, size, clear, setCapacity, getCapacity)
@@ -17,6 +22,8 @@
 -/
 import Golib.Conc.SeqSpec
 import Golib.Conc.Mutex
+import Golib.HMap.Linked
+import Golib.Lists.Linked
 import Driver.Common
 
 open Drv SeqSpec
@@ -148,6 +155,60 @@ def machineLine {σ Op Ret : Type} (step : σ → Op → σ × Ret) (init : σ) 
 def qShow (q : Queue.Q) : String := natsStr q.items ++ "/" ++ toString q.cap
 def dqShow (d : Queue.DQ) : String := qShow d.q1 ++ " " ++ qShow d.q2
 
+/-! the C09 / C13 CodeModels under the machine -/
+
+def lmDesc : HMap.Desc Nat Nat := { comb := (· + ·), veq := (· == ·) }
+def lmThr (n : Nat) : Nat := n * 3 / 4
+abbrev LM := HMap.LMap Nat Nat
+
+/-- a dictionary point operation of the spec, as an operation of the C09 code model; the Bool says
+    whether the fact is an entry (`k:v`) of which the code model returns only the value -/
+def toLOp : MOp → HMap.Op Nat Nat
+  | .put k v => .put .last k v
+  | .get k => .get k
+  | .has k => .containsKey k
+  | .rem k => .remove k
+  | .remFirst => .removeFirst
+  | .remLast => .removeLast
+  | .size => .size
+  | .empty => .isEmpty
+  | .clear => .clear
+
+def lmStep (m : LM) (op : MOp) : LM × (MOp × HMap.Out Nat Nat) :=
+  let r := HMap.LMap.step (fun k => k) lmThr lmDesc m (toLOp op)
+  (r.1, (op, r.2))
+
+def lmFact : MOp × HMap.Out Nat Nat → String
+  | (.remFirst, .val v) => s!"*:{v}"
+  | (.remLast, .val v) => s!"*:{v}"
+  | (.remFirst, _) => "0:0"
+  | (.remLast, _) => "0:0"
+  | (_, .val v) => toString v
+  | (_, .none) => "0"
+  | (_, .bool b) => if b then "1" else "0"
+  | (_, .nat n) => toString n
+  | (_, .unit) => "-"
+  | _ => "?"
+
+def toLLOp : DOp → Lists.Linked.Op
+  | .addFirst x => .addFirst x
+  | .addLast x => .addLast x
+  | .remFirst => .removeFirst
+  | .remLast => .removeLast
+  | .size => .size
+  | .clear => .clear
+
+def llStep (o : Lists.Linked.LL) (op : DOp) : Lists.Linked.LL × Lists.Linked.Out :=
+  let r := Lists.Linked.LL.step (toLLOp op) o
+  (r.2, r.1)
+
+def llFact : Lists.Linked.Out → String
+  | .unit => "-"
+  | .val v => toString v
+  | .none_ => "0"
+  | .size n => toString n
+  | _ => "?"
+
 def answer (line : String) : String :=
   match line.splitOn " " with
   | ["M", ops] => seqLine mstep [] parseMOp factStr mstateStr ops
@@ -162,6 +223,8 @@ def answer (line : String) : String :=
     | _, _ => "bad-op"
   | ["XM", acts] => machineLine mstep [] parseMOp factStr acts
   | ["XD", acts] => machineLine dstep [] parseDOp factStr acts
+  | ["XL", acts] => machineLine lmStep (HMap.LMap.new lmThr 3) parseMOp lmFact acts
+  | ["XLL", acts] => machineLine llStep Lists.Linked.LL.empty parseDOp llFact acts
   | ["XQ", cap, acts] =>
     match parseInt cap with
     | some c => machineLine qstep ⟨[], c⟩ parseQOp qretStr acts
